@@ -54,6 +54,7 @@ HAND_DOCS = [
     r'\begin{verbatim}\b\end{verbatim}\b',           # bare token body
     r'\a{\b{\c}}',                                   # nesting through arguments
     r'$a\x{y}$',
+    r'\begin{itemize}\item\c\end{itemize}',           # an item with a single content
 ]
 
 NAMES = ['ren', 'item']
@@ -353,8 +354,20 @@ SCRIPTED = [
     (r'\begin{e}{\b}\end{e}', (('insert', (0,), 0, (('s', '\\b'),)), ('remove', (0, 0)))),
     # insertion at a negative index is not contiguous
     (r'\begin{e}a\x b\end{e}', (('insert', (0,), -1, (('s', 'P'), ('s', 'Q'))),)),
-    # renaming \item freezes its contents
-    (r'\begin{itemize}\item a \c\end{itemize}', (('rename', (0, 0), 'foo'), ('delete', (0, 0, 1)))),
+    # a renamed \item keeps accepting edits of the contents it holds (repo fix a1e735f) ...
+    (r'\begin{itemize}\item a \c\end{itemize}', (('rename', (0, 0), 'foo'), ('delete', (0, 0, 1)),
+                                                  ('insert', (0, 0), 1, (('s', 'P'), ('d', DONOR_VPS[0]))),
+                                                  ('replace_with', (0, 0, 2), (('s', 'Q'),)),
+                                                  ('append', (0, 0), (('s', 'R'),)))),
+    # ... until it is empty
+    (r'\begin{itemize}\item\c\end{itemize}', (('rename', (0, 0), 'foo'), ('delete', (0, 0, 0)),
+                                               ('append', (0, 0), (('s', 'x'),)))),
+    # replacing its only content removes it and then raises (exception with a changed tree)
+    (r'\begin{itemize}\item\c\end{itemize}', (('rename', (0, 0), 'foo'),
+                                               ('replace_with', (0, 0, 0), (('s', 'X'),)),
+                                               ('append', (0, 0), (('s', 'x'),)))),
+    (r'\begin{itemize}\item\c\end{itemize}', (('rename', (0, 0), 'foo'),
+                                               ('replace', 2, (0, 0, 0), (('d', DONOR_VPS[0]),)))),
     # a renamed command becomes a container
     (r'\a\b', (('rename', (0,), 'item'), ('append', (0,), (('s', 'x'),)))),
     # string of an environment whose text sits in its argument
@@ -415,7 +428,7 @@ def run(prop, tier):
     gen = [('exh', [(d, 1, 2, 2)]) for d in docs]
     # 2. histories of length 2, exhaustively
     if quick:
-        two = [(d, 2, 1, 1) for d in HAND_DOCS[:2] + HAND_DOCS[7:8]]
+        two = [(d, 2, 1, 1) for d in HAND_DOCS[:2] + HAND_DOCS[7:8] + HAND_DOCS[-1:]]
     else:
         two = [(d, 2, 2, 1) for d in HAND_DOCS[:6]]
         two += [(d, 2, 1, 1) for d in list(dict.fromkeys(HAND_DOCS[6:] + tiny[:12]))]
@@ -457,6 +470,16 @@ def run(prop, tier):
         desc = (src, tuple(map(str, ops)))
         r.saw(desc, nontrivial=len(ops) > 0)
         r.count('history-length:%02d' % min(len(ops), 13))
+        # a rename followed by an edit of something below the renamed node
+        for a in range(len(ops)):
+            if ops[a][0] == 'rename':
+                for b in range(a + 1, len(ops)):
+                    vp = ops[b][2] if ops[b][0] == 'replace' else ops[b][1]
+                    if len(vp) > len(ops[a][1]) and tuple(vp[:len(ops[a][1])]) == tuple(ops[a][1]):
+                        r.count('rename-then-edit-below')
+                        if ops[b][0] in ('delete', 'remove', 'replace_with', 'replace'):
+                            r.count('rename-then-structural-edit-of-child')
+                        break
         toks = oi.split(' ')
         # histogram of (operation, outcome) from the implementation's side
         j = 0
@@ -466,7 +489,7 @@ def run(prop, tier):
             code = int(toks[j])
             r.count('op:%s:%s' % (op[0], {0: 'ok', 1: 'TypeError', 2: 'ValueError',
                                           3: 'AssertionError', 4: 'IndexError'}.get(code, code)))
-            if j + 1 >= len(toks):
+            if j + 1 >= len(toks) or not toks[j + 1].isdigit():
                 break
             j += 2 + int(toks[j + 1])
         if om != oi:
